@@ -24,7 +24,9 @@
 (* Bugs: behaviours of the pinned tree that deviate from what a user       *)
 (* relies on; with the name in Bugs the specification describes what the   *)
 (* code does (so the binding reports nothing), without it what it should   *)
-(* do.  The invariants guarded by a name are checked with Bugs = {}.       *)
+(* do.  Every scenario (mode) exists with all of them (replayed into the   *)
+(* code) and with none (model-checked only: the invariants guarded by a    *)
+(* name bite there).                                                       *)
 (*   "StaleSession"  Session/Participant events of a session that is not   *)
 (*                   the current one are applied to the current one        *)
 (*   "Outlive"       EOF / close() leave outstanding futures pending       *)
@@ -76,7 +78,6 @@ Nn(k) == [k |-> k, t |-> "n", s |-> "", n |-> 0, kids |-> <<>>]
 D(k, kids) == [k |-> k, t |-> "d", s |-> "", n |-> 0, kids |-> kids]
 SN(k, v) == IF v = "" THEN Nn(k) ELSE S(k, v)      \* "" stands for None in handles / URIs
 
-Has(es, k) == \E i \in DOMAIN es : es[i].k = k
 Get(es, k) == es[CHOOSE i \in DOMAIN es : es[i].k = k]
 
 \* what xml_to_dict(parse(buildxml(d))) gives back: integers come back as text, None / "" / {} as None;
